@@ -41,9 +41,12 @@ def _trace_functions(repo):
     return seen
 
 
-def _worker(conn, harness_name, cfg, tier, repo, seed):
+def _worker(conn, harness_name, cfg, tier, repo, seed, budget=None):
     try:
         os.environ["PYMOTO_VERIF"] = "1"
+        if budget:
+            # soft deadline: path exploration stops and hands back what it has before the hard kill would discard it
+            os.environ["SYMX_SOFT_DEADLINE"] = repr(time.time() + budget - max(25.0, 0.15 * budget))
         sys.stdout = open(os.devnull, "w")      # pyMOTO prints (timing, finite_difference reports); results travel by pipe
         if os.environ.get("SYMX_STACK_AT"):      # debugging aid: Python stack of the worker after N seconds (to stderr)
             import faulthandler
@@ -98,7 +101,8 @@ def run_items(harness_name, items, tier, repo, seed, jobs, item_timeout):
         while pending and len(running) < jobs:
             idx, cfg = pending.pop(0)
             pc, cc = ctx.Pipe(duplex=False)
-            p = ctx.Process(target=_worker, args=(cc, harness_name, cfg, tier, repo, seed), daemon=True)
+            p = ctx.Process(target=_worker, args=(cc, harness_name, cfg, tier, repo, seed, cfg.get("timeout", item_timeout)),
+                            daemon=True)
             p.start()
             cc.close()
             running[idx] = (p, pc, time.time(), cfg)
@@ -285,6 +289,10 @@ def main(argv=None):
         solver_time += r.get("solver_time", 0.0)
         for k, v in r.get("vacuity", {}).items():
             vac[k] = vac.get(k, 0) + v
+        if r.get("deadline_hit"):
+            timeouts += 1
+            inconclusive.append(dict(item=cfg.get("id"), why="soft deadline: %d paths explored, the remaining paths unexplored"
+                                                           % r.get("paths", 0)))
         vq = r.get("vacuity", {})
         if r.get("paths", 0) > 0 and vq.get("paths_sat", 0) == 0 and vq.get("paths_unknown", 0) > 0:
             inconclusive.append(dict(item=cfg.get("id"), why="vacuity guard: path feasibility unknown"))
